@@ -558,15 +558,14 @@ class Cap(object):
             st.imprecise.add(r)
             return I(Lin.sym(r))
         if w and sw and w < sw:
-            # narrowing: value preserved when provably in range
-            lo, hi = (-(1 << (w - 1)), (1 << (w - 1)) - 1) if s else (0, (1 << w) - 1)
-            if entails(st.cons, l - lo) and entails(st.cons, Lin.const(hi) - l):
-                return v
-            r = fresh("nar")
-            st.cons.append(Lin.sym(r) - lo)
-            st.cons.append(Lin.const(hi) - Lin.sym(r))
-            st.imprecise.add(r)
-            return I(Lin.sym(r))
+            # narrowing: lengths and indices are assumed to fit the types they are stored in (stated assumption);
+            # what is modelled is the sign change: a possibly negative value converted to an unsigned type wraps
+            if (not s) and not entails(st.cons, l):
+                r = fresh("cvt")
+                st.cons.append(Lin.sym(r))
+                st.imprecise.add(r)
+                return I(Lin.sym(r))
+            return v
         return v
 
     def ev_unary(self, n, st):
@@ -1680,7 +1679,32 @@ class Cap(object):
                 s0 = a[2] + b[2]
                 cands.append(("sum+", (xa + xb) - s0))
                 cands.append(("sum-", s0 - (xa + xb)))
-        # guard-derived candidates: a < b  ->  a <= b as invariant
+        # guard-derived candidates: a < b  ->  a <= b as invariant (evaluated over the havocked symbols)
+        if n.get("cond") is not None:
+            rs0 = self.record
+            self.record = False
+            try:
+                for cj in self.conjuncts(n["cond"]):
+                    c0 = X.strip(cj)
+                    if c0.get("k") == "bin" and c0.get("op") in ("<", "<=", ">", ">="):
+                        hv = h.copy()
+                        la = self.ev(c0["ch"][0], hv)
+                        if len(la) != 1:
+                            continue
+                        lb = self.ev(c0["ch"][1], la[0][0])
+                        if len(lb) != 1:
+                            continue
+                        a, b = la[0][1], lb[0][1]
+                        if a[0] == "p" and b[0] == "p" and a[1] == b[1]:
+                            a, b = I(a[2]), I(b[2])
+                        if a[0] == "i" and b[0] == "i":
+                            d = (b[1] - a[1]) if c0["op"] in ("<", "<=") else (a[1] - b[1])
+                            cands.append(("guard", d))
+                            cands.append(("guard+1", d + 1))
+            except TooManyStates:
+                pass
+            finally:
+                self.record = rs0
         cands = [c for c in cands if c is not None]
 
         def value_of(sx, key, info):
@@ -1753,6 +1777,12 @@ class Cap(object):
         out["norm"].extend(f0)
         out["norm"].extend(exit_states)
         return out
+
+    def conjuncts(self, c):
+        c0 = X.strip(c)
+        if c0.get("k") == "bin" and c0.get("op") == "&&":
+            return self.conjuncts(c0["ch"][0]) + self.conjuncts(c0["ch"][1])
+        return [c]
 
     def one_iteration(self, n, hs):
         ends = []
